@@ -208,8 +208,56 @@ def dereference_rule(repo: Repo, rep: Report, rid: str) -> None:
               f"{new.key}:fields", "stores stream, context; cache empty", f"Pointer.__new__ stores {st}", new.loc())
 
 
+# readers that may parse from a private copy of bytes taken off the caller's stream, with the reason
+REWRAP_ALLOWED = {
+    "types/structure.py:UnionMetaType._read_fields": "a fixed-size union parses every member from one private buffer of exactly cls.size bytes (members are views of it)",
+}
+FIXTURE_REWRAP = "def _read_array(cls, stream, count, context=None):\n    buf = io.BytesIO(stream.read(cls.size * count))\n    return [cls._read(buf, context) for _ in range(count)]\n"
+
+
+def _rewraps(fn: ast.FunctionDef) -> list[ast.Call]:
+    """BytesIO(...) built from bytes that were just read off one of the function's stream parameters."""
+    from ..util import resolve_local
+
+    params = {a.arg for a in fn.args.args}
+    out = []
+    for c in ast.walk(fn):
+        if isinstance(c, ast.Call) and call_name(c) == "BytesIO" and c.args:
+            src = resolve_local(fn, c.args[0]) if isinstance(c.args[0], ast.Name) else c.args[0]
+            for r in ast.walk(src) if src is not None else []:
+                if isinstance(r, ast.Call) and call_name(r) == "read" and isinstance(r.func, ast.Attribute) and isinstance(r.func.value, ast.Name) and r.func.value.id in params:
+                    out.append(c)
+                    break
+    return out
+
+
+def stream_identity_rule(repo: Repo, rep: Report, rid: str) -> None:
+    rep.rule(rid, "a pointer remembers the stream it was parsed from, so readers hand the caller's own stream down to element and field readers: no reader "
+                  "re-wraps bytes it read from its stream parameter in a new BytesIO (one named exception: the fixed-size union's private buffer)")
+    if len(_rewraps(ast.parse(FIXTURE_REWRAP).body[0])) != 1:
+        raise AnalysisError("stream re-wrap matcher no longer recognises its positive fixture")
+    rep.ok(rid, "fixture:BytesIO(stream.read(n)) handed to cls._read", "matcher recognises the positive fixture", "", nontrivial=False)
+    seen_allowed = 0
+    for fi in repo.all_functions():
+        if not fi.module.rel.startswith("types/") and fi.module.rel != "compiler.py":
+            continue
+        for c in _rewraps(fi.node):
+            if fi.key in REWRAP_ALLOWED:
+                seen_allowed += 1
+                rep.ok(rid, f"{fi.key}:{short(c, 50)}", f"allowed: {REWRAP_ALLOWED[fi.key]}", fi.loc(c))
+            else:
+                rep.fail(rid, f"{fi.key}:{short(c, 50)}", f"{fi.qualname} parses from '{short(c, 50)}', a private copy of bytes read off its stream parameter: a Pointer "
+                                                      "created by the nested reader keeps that temporary buffer as its stream, so dereferencing seeks to the "
+                                                      "absolute address inside a buffer that only holds these bytes", fi.loc(c))
+    rep.floor(rid, "confirmed private-buffer readers", seen_allowed, 1)
+
+
 def run(repo: Repo, rep: Report, tier: str) -> None:
     config_rule(repo, rep, "C16.R1")
     construction_parity_rule(repo, rep, "C16.R2")
     arithmetic_rule(repo, rep, "C16.R3")
     dereference_rule(repo, rep, "C16.R4")
+    stream_identity_rule(repo, rep, "C16.R5")
+    from .c05 import codec_fold_rule
+
+    codec_fold_rule(repo, rep, "C16.R6", slots=("_read_0",))
